@@ -185,8 +185,9 @@ def gen_inputs(tier, rng):
         yield b
     # directed: ONE regularized linear object (the only configuration in which curvature_reg_matrix adds the
     # regularization matrix IN PLACE into the array curvature_matrix returned) with the curvature matrix preloaded
-    for i in range(40 if big else 6):
-        b = gen_base(rng, "m")
+    for i in range(48 if big else 8):
+        # ... whatever KIND of object it is: a lone mapper, or a lone regularized function list (no mapper at all)
+        b = gen_base(rng, "m" if i % 4 != 3 else "f")
         b["objs"][0]["coef"] = rng.choice(["1", "2", "1/2"])
         b["op"] = "hist"; b["use_w_tilde"] = bool(i % 2); b["pre_use_wt"] = None
         b["slots"] = ["curvature_matrix"] + [s for s in SLOTS if s != "curvature_matrix" and rng.random() < 0.3]
